@@ -8,26 +8,37 @@ UF = dict(INIT_UNWIND)
 UF.update({'pin_instrument': 40, '_ZN4OPN26noteOnEmd': 12})
 MODES = {0: 'gm', 1: 'gs', 2: 'xg'}
 OBLIGATIONS = []
+# One scenario (bank pair x blank pattern, resp. one percussion case) per solver run: a run that holds 8 (4) scenarios costs 8 (4) times the
+# symbolic execution of opn2_init + note-on and 6-12 GiB, and took 10-20 min; the single-scenario runs are the same cases, run in parallel.
+PAIRS = ('0:0', '1:2', '1:0', '1:3', '2:5')
+# quick: exact bank present (GS: LSB ignored) with every blank pattern in XG, the decisive patterns in GS, exact bank missing in XG
+QUICK_MEL = set([(2, 1, b) for b in range(8)] + [(1, 1, b) for b in (0, 1, 3, 7)] + [(2, 3, b) for b in (0, 2, 6)])
+QUICK_PERC = set([(2, c) for c in (4, 5, 6, 7)])
+PERC_CASES = ['program 0 -> kit 0', 'program 5 -> kit 5', 'kit 5 blank -> kit 0', 'kit 5 and kit 0 blank -> rejected', 'program 0, kit 0 blank -> rejected',
+              'program 5, MSB 0x7E -> XG SFX kit 128+5', 'program 5, MSB 0x7F -> kit 5', 'MSB 0x7E, SFX kit blank -> kit 0', 'kit 3 missing -> kit 0',
+              'kit 3 missing, MSB 0x7E -> kit 0', 'program 0, MSB 0x7E -> kit 0', 'MSB 0x7E, SFX kit and kit 0 blank -> rejected']
 for mode, mn in sorted(MODES.items()):
-    for sel, pair in enumerate(('0:0', '1:2', '1:0', '1:3', '2:5')):
-        OBLIGATIONS.append(Ob('C12.melodic.%s.bank%s' % (mn, pair.replace(':', '_')), 'C12', 'ir/c12_banks.cpp', engine='ir', entry='harness_melodic',
-                              defines=['MODE=%d' % mode, 'SEL=%d' % sel], unwind=20, unwind_funcs=UF, unwindset={'memcmp.0': 40}, repo_tus=PLAYER_TUS,
-                              ir_opts=player_ir_opts(), tiers=('quick', 'thorough') if (mode == 2 and sel in (1, 3)) or (mode == 1 and sel == 1) else ('thorough',),
-                              timeout={'quick': 1500, 'thorough': 3000},
-                              desc='melodic channel, %s mode, bank select MSB:LSB %s, program 7, all 8 blank patterns of the three candidate entries: the tag loaded into the chip is exact bank / LSB-cleared bank / bank 0 in that order (GS ignores the LSB); all blank => rejected and silent' % (mn.upper(), pair),
-                              bounds='banks {0:0, 1:0, 1:2} present; every key 0..127 and velocity 1..127; one note on a fresh instance',
-                              assumptions=['banks are forged map slots with concrete tagged timbres (see harness/ir/forge.hpp)'], stubs=PLAYER_STUBS))
-    for sel in (0, 1, 2):
-        OBLIGATIONS.append(Ob('C12.perc.%s.g%d' % (mn, sel), 'C12', 'ir/c12_banks.cpp', engine='ir', entry='harness_perc',
-                              defines=['MODE=%d' % mode, 'SEL=%d' % sel], unwind=20, unwind_funcs=UF, unwindset={'memcmp.0': 40}, repo_tus=PLAYER_TUS,
-                              ir_opts=player_ir_opts(), tiers=('quick', 'thorough') if mode == 2 and sel == 1 else ('thorough',),
-                              timeout={'quick': 1500, 'thorough': 3000},
-                              desc='percussion channel 10, %s mode: program selects the kit (XG MSB 0x7E: SFX kits 128 up), key selects the entry, missing/blank kits fall back to kit 0, melodic banks never used (4 of 12 enumerated cases)' % mn.upper(),
+    for sel, pair in enumerate(PAIRS):
+        for bl in range(8):
+            blanks = ','.join(n for n, bit in (('exact', 1), ('lsb0', 2), ('bank0', 4)) if bl & bit) or 'none'
+            OBLIGATIONS.append(Ob('C12.melodic.%s.bank%s.bl%d' % (mn, pair.replace(':', '_'), bl), 'C12', 'ir/c12_banks.cpp', engine='ir', entry='harness_melodic',
+                                  defines=['MODE=%d' % mode, 'SEL=%d' % sel, 'BL=%d' % bl], unwind=20, unwind_funcs=UF, unwindset={'memcmp.0': 40}, repo_tus=PLAYER_TUS,
+                                  ir_opts=player_ir_opts(), tiers=('quick', 'thorough') if (mode, sel, bl) in QUICK_MEL else ('thorough',),
+                                  timeout={'quick': 600, 'thorough': 1800},
+                                  desc='melodic channel, %s mode, bank select MSB:LSB %s, program 7, blank entries: %s: the tag loaded into the chip is exact bank / LSB-cleared bank / bank 0 in that order (GS ignores the LSB); all blank => rejected and silent' % (mn.upper(), pair, blanks),
+                                  bounds='banks {0:0, 1:0, 1:2} present; every key 0..127 and velocity 1..127; one note on a fresh instance',
+                                  assumptions=['banks are forged map slots with concrete tagged timbres (see harness/ir/forge.hpp)'], stubs=PLAYER_STUBS))
+    for case in range(12):
+        OBLIGATIONS.append(Ob('C12.perc.%s.case%d' % (mn, case), 'C12', 'ir/c12_banks.cpp', engine='ir', entry='harness_perc',
+                              defines=['MODE=%d' % mode, 'PCASE=%d' % case], unwind=20, unwind_funcs=UF, unwindset={'memcmp.0': 40}, repo_tus=PLAYER_TUS,
+                              ir_opts=player_ir_opts(), tiers=('quick', 'thorough') if (mode, case) in QUICK_PERC else ('thorough',),
+                              timeout={'quick': 600, 'thorough': 1800},
+                              desc='percussion channel 10, %s mode, case "%s": program selects the kit (XG MSB 0x7E: SFX kits 128 up), key selects the entry, missing/blank kits fall back to kit 0, melodic banks never used' % (mn.upper(), PERC_CASES[case]),
                               bounds='kits {0, 5, 128+5} present; key 38; every velocity', stubs=PLAYER_STUBS))
 
 for mode, mn in ((2, 'xg'), (0, 'gm')):
     OBLIGATIONS.append(Ob('C12.gsreset.' + mn, 'C12', 'ir/c12_banks.cpp', engine='ir', entry='harness_gsreset', defines=['MODE=%d' % mode],
                           unwind=20, unwind_funcs=UF, unwindset={'memcmp.0': 40}, repo_tus=PLAYER_TUS, ir_opts=player_ir_opts(),
-                          tiers=('quick', 'thorough') if mode == 2 else ('thorough',), timeout={'quick': 900, 'thorough': 3000},
+                          tiers=('quick', 'thorough') if mode == 2 else ('thorough',), timeout={'quick': 600, 'thorough': 1800},
                           desc='%s mode: CC0=126/127 turns channel 1 into a drum channel; after the GS reset SysEx a note plays the melodic instrument (MSB,0,program) again' % mn.upper(),
                           bounds='one fixed call sequence (CC0, GS reset, bank/program, note-on); every velocity', stubs=PLAYER_STUBS))
